@@ -61,6 +61,10 @@ kind("reserved_arg", "exception")(lambda: make_pass("K_RES", type="mine"))
 kind("deliberate_skip", "nothing")(lambda: (_ for _ in ()).throw(SkipComponent()))
 kind("disabled", "nothing")(lambda: make_fail("K_DISABLED"))
 kind("oversized", "stub", "reports", "rule", "K_BIG")(lambda: make_fail("K_BIG", payload=BIG))
+# rules that carry a content template (rendered only on request): a template that does not render must not make the rule's response disappear
+kind("tpl_good", "report", "reports", "rule", "K_TG", content="good: {{ n }} item(s)")(lambda: make_fail("K_TG", n=1))
+kind("tpl_typo", "report", "reports", "rule", "K_TT", content="broken: {{ n } item(s)")(lambda: make_fail("K_TT", n=2))
+kind("tpl_stub", "stub", "reports", "rule", "K_TS", content="usage {{ pct|round(1) }}%")(lambda: make_fail("K_TS", pct=3.14159, payload=BIG))
 dr.set_enabled(KINDS["disabled"]["rule"], False)
 
 
@@ -128,5 +132,11 @@ for k in range(1, K + 1):
         with JsonFormat(broker, show_rules=["rule", "pass", "info", "none", "fingerprint"], stream=out):
             dr.run(comps, broker=broker)
         check(names, json.loads(out.getvalue()), broker, "JsonFormat")
+        if any(x.startswith("tpl_") for x in names) or k == 1:
+            broker = dr.Broker()
+            out = StringIO()
+            with JsonFormat(broker, show_rules=["rule", "pass", "info", "none", "fingerprint"], render_content=True, stream=out):
+                dr.run(comps, broker=broker)
+            check(names, json.loads(out.getvalue()), broker, "JsonFormat")
         n += 1
 print(json.dumps({"ok": True, "rule_kinds": len(KINDS), "max_together": K, "evaluations": n}))
